@@ -223,6 +223,10 @@ func c04(args []string) {
 		}
 		if len(ps) > 0 {
 			for _, sig := range sigSet(ps) {
+				if sig == "exit-nonzero" && strings.Contains(res.Output(), "panic: send on closed channel") && literalFeederFanIn(js) {
+					// known finding: see known_findings.json
+					sig = "exit-nonzero:literal-feeder-closed-the-parameter-port-before-the-other-upstreams-sent"
+				}
 				c.Violation(sig, strings.Join(mon.Summarize(ps, 6), "\n  "), map[string]interface{}{"spec": j.s, "cfg": j.cfg[k], "problems": mon.Summarize(ps, 30), "graph": gen.Describe(j.s)})
 			}
 		} else {
@@ -261,6 +265,30 @@ func c04(args []string) {
 		}
 	}
 	c.Finish()
+}
+
+// literalFeederFanIn tells whether some parameter port has a literal feeder (FromStr/FromInt/FromFloat) and
+// at least one more upstream.
+func literalFeederFanIn(s *spec.Spec) bool {
+	for _, p := range s.Procs {
+		for _, f := range p.Feeds {
+			n := 0
+			for _, g := range p.Feeds {
+				if g.Port == f.Port {
+					n++
+				}
+			}
+			for _, cn := range s.Conns {
+				if cn.Param && cn.To == p.Name+"."+f.Port {
+					n++
+				}
+			}
+			if n >= 2 {
+				return true
+			}
+		}
+	}
+	return false
 }
 
 func sigSet(ps []mon.Problem) []string {
